@@ -26,7 +26,10 @@ def meta_of(path):
 
 
 checks, claimed = [], set()
+CLAIM = [l.strip() for l in open(os.path.join(V, "tools", "claimed.txt")) if l.strip() and not l.startswith("#")]
 for path in sorted(glob.glob(os.path.join(V, "checks", "C*.py"))):
+    if os.path.basename(path)[:-3] not in CLAIM:
+        continue
     m = meta_of(path)
     pid = m["PROPERTY"]
     meta = m.get("META", {})
